@@ -235,6 +235,47 @@ func rulePlanMap(p *Prog, r *Result) {
 				}
 				r.add(okKeys, "MGET|all-keys", p.InstrPos(c), "the point-read plan receives every key of the scan type (slice sized len(keys))")
 			}
+			if (name == "RANGE" && cl == "range") || (name == "PREFIX" && cl == "prefix") {
+				// the cursor plan receives the region's bounds as the algebra computed them: elements of stype.keys,
+				// in order, untouched (nil and '' are different bounds: nil is open, '' is the empty key)
+				var idxs []int64
+				direct := true
+				for _, a := range c.Call.Args {
+					if cv, isCv := a.(*ssa.Convert); isCv {
+						a = cv.X // string(keys[0])
+					}
+					sl, isSl := a.Type().Underlying().(*types.Slice)
+					if !isSl {
+						continue
+					}
+					if bt, isB := sl.Elem().Underlying().(*types.Basic); !isB || bt.Kind() != types.Byte {
+						continue
+					}
+					u, isU := a.(*ssa.UnOp)
+					if !isU {
+						direct = false
+						continue
+					}
+					ia, isIA := u.X.(*ssa.IndexAddr)
+					if !isIA || !isFieldLoad(ia.X, "ScanType", "keys") {
+						direct = false
+						continue
+					}
+					k, isK := constInt(ia.Index)
+					if !isK {
+						direct = false
+						continue
+					}
+					idxs = append(idxs, k)
+				}
+				inOrder := direct && len(idxs) > 0
+				for i, k := range idxs {
+					if int64(i) != k {
+						inOrder = false
+					}
+				}
+				r.add(inOrder, name+"|bounds", p.InstrPos(c), fmt.Sprintf("the %s plan is built from the scan type's keys themselves, in order (indices %v, direct %v)", strings.ToLower(name), idxs, direct))
+			}
 		}
 		sort.Strings(rets)
 		okv := len(classes) > 0
